@@ -255,4 +255,51 @@ theorem equiv_force {c : CAS} {n : Node} {ch : Children} (h : contents c [] n = 
   rw [h]
   simpa [contents, ContRel] using ChRel.refl (Equiv.refl c) ch
 
+/-! ### the access monitoring wrapper is invisible -/
+
+theorem fetch_result_mon (c : CAS) (F : List Dig) (d : Dig) (m : Option Path) :
+    (fetch c F d m).result =
+      match (fetchBase c F d).result with
+      | .ok ch => .ok (ch.map (annotate m))
+      | .error e => .error e := rfl
+
+theorem fetch_created_mon (c : CAS) (F : List Dig) (d : Dig) (m : Option Path) :
+    (fetch c F d m).created = (fetchBase c F d).created ∧
+    (fetch c F d m).unlinked = (fetchBase c F d).unlinked := ⟨rfl, rfl⟩
+
+/-- Directories that differ only in the monitor they (and everything below them) are
+wrapped for cannot be told apart. -/
+theorem eqv_mon (c : CAS) : ∀ (k : Nat) (d : Dig) (m m' : Option Path),
+    eqv c k (.lazy d m) (.lazy d m') := by
+  intro k
+  induction k with
+  | zero => intro d m m'; rfl
+  | succ k ih =>
+    intro d m m'
+    refine ⟨rfl, ?_⟩
+    simp only [contents, fetch_result_mon]
+    cases (fetchBase c [] d).result with
+    | error e => simp [ContRel]
+    | ok ch =>
+      simp only [ContRel]
+      induction ch with
+      | nil => exact .nil
+      | cons e es ihh =>
+        obtain ⟨n, v⟩ := e
+        simp only [List.map_cons]
+        cases v with
+        | lazy d' a => simp only [annotate]; exact ChRel.cons (ih d' _ _) ihh
+        | file d' x a =>
+          simp only [annotate]
+          refine ChRel.cons ?_ ihh
+          cases k with
+          | zero => rfl
+          | succ k => exact ⟨rfl, by simp [contents, ContRel]⟩
+        | sym t => simp only [annotate]; exact ChRel.cons (eqv_refl c k _) ihh
+        | loc => simp only [annotate]; exact ChRel.cons (eqv_refl c k _) ihh
+        | dir g => simp only [annotate]; exact ChRel.cons (eqv_refl c k _) ihh
+
+theorem equiv_mon (c : CAS) (d : Dig) (m m' : Option Path) : Equiv c (.lazy d m) (.lazy d m') :=
+  fun k => eqv_mon c k d m m'
+
 end BbRe.Lemmas.InputRoot
